@@ -21,6 +21,7 @@ RULE = (
     "and volume loads, 0-2 orphan nodes, a linear solver back-end (scipy, cg, bicg, gmres, lgmres) and Lagrange "
     "(multi-point / connection) conditions. Non-trivial = at least one dof constrained more than once or two overlapping "
     "conditions, and at least one loaded free dof; distinct = sha1 of the case."
+    ' dirichlet_neumann also draws prescribed values that cancel exactly, per-unknown values listed in any order and load magnitudes 2^-30..2^20; orphans_phasefield: damage problem of a phase-field simulation on a mesh with 1-3 orphan nodes vs the same mesh without (non-trivial = non-zero damage).'
 )
 ASSUMPTIONS = [
     "documented convention of the elimination solver: a dof constrained several times holds the sum of the entered values",
